@@ -97,7 +97,7 @@ m = {
         "add_only": True,
     },
     "engines": [{"name": "yadmon", "path": "yadmon/", "serves_properties": [c["property_id"] for c in checks],
-                 "kind_free_text": "runtime monitoring harness: seeded workloads in 16 worker subprocesses (JIT on, numba cache keyed by a hash of /repo/src), recording probes on the real call boundaries, independent reference models, three-valued verdicts, known-findings matching by mechanism signature"}],
+                 "kind_free_text": "runtime monitoring harness: seeded workloads in 16 worker subprocesses (JIT on, numba cache keyed by a hash of /repo/src), recording probes on the real call boundaries, independent reference models, three-valued verdicts, known-findings matching by mechanism signature; sanitizers: NUMBA_BOUNDSCHECK runs (C18 both tiers) and valgrind memcheck over whole JIT-mode runs (C18 thorough tier)"}],
     "checks": checks,
     "notes": "exit 0 held / 1 VIOLATION / 2 INCONCLUSIVE (coverage floor not met: never folded into held). VERIF_SEED and VERIF_TIER honoured. known_findings.json lists fixed and open findings; replays/ holds witnesses.",
     "not_applicable": na,
